@@ -251,6 +251,7 @@ func runVamana(c fw.Case, env *fw.Env, prop string) *fw.CaseResult {
 	if prop == "C10" {
 		nSearch = 6
 	}
+	tw := newTrainWatch("v", sv)
 	for step := 0; step < steps; step++ {
 		var op gen.Op
 		switch {
@@ -300,6 +301,7 @@ func runVamana(c fw.Case, env *fw.Env, prop string) *fw.CaseResult {
 		if op.Kind != gen.OpInsert && op.Size() > 0 {
 			mutated = true
 		}
+		mBefore := m.Clone()
 		ok, out := applyOp(res, prop, s, m, op, step)
 		if !ok {
 			return res
@@ -332,6 +334,7 @@ func runVamana(c fw.Case, env *fw.Env, prop string) *fw.CaseResult {
 			}
 		}
 		o := newVecOracle(dump, "v", sv)
+		tw.step(res, prop, mBefore, m, op, true, o.trained(), step)
 		nVec := countWithVector(m, "v", vc.Dim)
 		for qi := 0; qi < nSearch; qi++ {
 			query := g.Vector(vc.Dim, vc.Metric)
